@@ -8,10 +8,16 @@
  *     when d_j = 0; T threads; kind 0 = the thread function returns, 1 = myth_exit from a nested call,
  *     2 = the thread polls myth_testcancel and is cancelled by main; each thread stores value v under
  *     the slot-th created key for its (slot, v) pairs, in order (slot -1: no store).
+ *     A pair (slot, v) with slot <= -2 re-creates slot j = -2 - slot: the thread deletes that key and
+ *     creates a new one (with destructor DTOR[j] when v = 1, without when v = 0); the free list is LIFO, so
+ *     the new key has the same index unless other threads interfere - therefore W < 0 means |W| workers
+ *     and the threads are run ONE AFTER THE OTHER (created, cancelled if kind 2, joined).
  * Output:
  *   keys k_0 .. k_{NK-1}                       (index returned for the j-th creation, -1 = failed)
- *   T<i> kind=<k> calls <tag>:<v> ...          (calls made while thread i terminated, in call order;
- *                                                tag = creation number j of the destructor called)
+ *   T<i> kind=<k> rec <j>:<idx> ... calls <tag>:<v> ...
+ *                                              (re-creations done by thread i: slot and new index; then the
+ *                                               calls made while thread i terminated, in call order;
+ *                                               tag = creation number j of the destructor called)
  *   after <tag>:<v> ...                        (calls logged outside any registered thread: none expected)
  *   done */
 #include <stdio.h>
@@ -35,7 +41,7 @@ static void log_call(int tag, void * v) {
 }
 #include "c10_dtors.h"
 
-struct targ { int tid, kind, ns; int * slot; unsigned long * val; };
+struct targ { int tid, kind, ns; int * slot; unsigned long * val; int nrec; int rec_slot[64]; int rec_idx[64]; };
 static struct targ TA[MAXT];
 static myth_key_t g_key[1100];
 static volatile int g_started[MAXT];
@@ -43,6 +49,14 @@ static volatile int g_started[MAXT];
 static void do_sets(struct targ * t) {
   int i;
   for (i = 0; i < t->ns; i++) {
+    if (t->slot[i] <= -2) {
+      int j = -2 - t->slot[i]; myth_key_t nk = -1;
+      myth_key_delete(g_key[j]);
+      if (myth_key_create(&nk, t->val[i] ? DTOR[j] : 0) != 0) nk = -1;
+      g_key[j] = nk;
+      if (t->nrec < 64) { t->rec_slot[t->nrec] = j; t->rec_idx[t->nrec] = nk; t->nrec++; }
+      continue;
+    }
     if (t->slot[i] < 0) continue;
     myth_setspecific(g_key[t->slot[i]], (void *)t->val[i]);
     if (i % 5 == 4) myth_yield();
@@ -63,8 +77,9 @@ static void * th_main(void * a) {
 }
 
 int main(void) {
-  int W, NK, T, i, j; static int has[1100]; myth_thread_t th[MAXT]; myth_globalattr_t ga[1];
+  int W, NK, T, i, j, seq = 0; static int has[1100]; myth_thread_t th[MAXT]; myth_globalattr_t ga[1];
   if (scanf("%d %d", &W, &NK) != 2 || NK < 0 || NK > 1024) return 2;
+  if (W < 0) { seq = 1; W = -W; }
   for (j = 0; j < NK; j++) if (scanf("%d", &has[j]) != 1) return 2;
   if (scanf("%d", &T) != 1 || T < 0 || T > MAXT) return 2;
   for (i = 0; i < T; i++) {
@@ -82,13 +97,24 @@ int main(void) {
     printf(" %d", g_key[j]);
   }
   printf("\n");
-  for (i = 0; i < T; i++) th[i] = myth_create(th_main, &TA[i]);
-  for (i = 0; i < T; i++) if (TA[i].kind == 2) myth_cancel(th[i]);
-  for (i = 0; i < T; i++) myth_join(th[i], 0);
+  if (seq) {
+    for (i = 0; i < T; i++) {
+      th[i] = myth_create(th_main, &TA[i]);
+      if (TA[i].kind == 2) myth_cancel(th[i]);
+      myth_join(th[i], 0);
+      g_self[i] = 0;            /* the descriptor may be reused by the next thread */
+    }
+  } else {
+    for (i = 0; i < T; i++) th[i] = myth_create(th_main, &TA[i]);
+    for (i = 0; i < T; i++) if (TA[i].kind == 2) myth_cancel(th[i]);
+    for (i = 0; i < T; i++) myth_join(th[i], 0);
+  }
   {
     int n = g_nlog;
     for (i = 0; i < T; i++) {
-      printf("T%d kind=%d calls", i, TA[i].kind);
+      printf("T%d kind=%d", i, TA[i].kind);
+      if (TA[i].nrec) { int q; printf(" rec"); for (q = 0; q < TA[i].nrec; q++) printf(" %d:%d", TA[i].rec_slot[q], TA[i].rec_idx[q]); }
+      printf(" calls");
       for (j = 0; j < n && j < MAXLOG; j++) if (g_log[j].tid == i) printf(" %d:%lu", g_log[j].tag, g_log[j].v);
       printf("\n");
     }
